@@ -92,7 +92,7 @@ def _clamp(x, lo, hi):
     return sym.real_min(sym.real_max(lo, x), hi)
 
 
-@harness('C24', 'Exponential._add_jitter', functions=[EQ + '._add_jitter'])
+@harness('C24', 'Exponential._add_jitter', functions=[EQ + '._add_jitter'], native='contracts.native.c24:replay')
 def jitter(vc):
     """ensures result == clamp(j*value/100, base, max) for the drawn j in [85,115]; hence base <= result <= max"""
     self, b, m, ma = _exp(vc)
